@@ -6,6 +6,8 @@
 //!       [idx=..] [nlin=..] [nlout=..] [dirty=0|1]`
 //! ops: ks ks_assign auto auto_assign auto_add auto_add_assign auto_sub auto_sub_assign auto_subneg
 //!      auto_subneg_assign trace trace_assign lwe_ks glwe_to_lwe lwe_to_glwe extract
+//!      gglwe_ks gglwe_ks_assign atk_auto atk_auto_assign   (`r0= adnum= adsize= rdnum= pa=`: the GGLWE operand / result)
+//!      pack packer   (`slots=<i,j,…>` `lgap=<log_gap_out | log_batch>`; `a=<slot:ct@slot:ct…>`)
 //!
 //! Answer line: `id ok skin=<polys> skout=<polys> keys=<p:GGLWE@p:GGLWE…> a=<ct> res=<ct>` or `id panic:<class>`.
 //! Text forms: polynomial = coefficients joined by `,`; column = limbs joined by `|`; ciphertext =
@@ -22,7 +24,7 @@ use std::io::{BufRead, Write};
 
 use poulpy_core::{
     EncryptionLayout, GLWEAutomorphism, GLWEAutomorphismKeyEncryptSk, GLWEEncryptSk, GLWEFromLWE, GLWEKeyswitch,
-    GLWESwitchingKeyEncryptSk, GLWEToLWESwitchingKeyEncryptSk, GLWETrace, LWEEncryptSk, LWEFromGLWE, LWEKeySwitch, LWESampleExtract,
+    GGLWEKeyswitch, GLWEAutomorphismKeyAutomorphism, GLWEPacker, GLWEPacking, GLWESwitchingKeyEncryptSk, GLWEToLWESwitchingKeyEncryptSk, GLWETrace, glwe_packer_add, glwe_packer_flush, LWEEncryptSk, LWEFromGLWE, LWEKeySwitch, LWESampleExtract,
     LWESwitchingKeyEncrypt, LWEToGLWESwitchingKeyEncryptSk,
     layouts::{
         Base2K, Degree, Dnum, Dsize, GGLWEInfos, GGLWEToRef, GLWE, GLWEAutomorphismKey, GLWEAutomorphismKeyLayout,
@@ -65,6 +67,13 @@ pub struct Case {
     pub nlin: usize,
     pub nlout: usize,
     pub dirty: bool,
+    pub slots: Vec<usize>,
+    pub lgap: usize,
+    pub r0: usize,
+    pub adnum: usize,
+    pub adsize: usize,
+    pub rdnum: usize,
+    pub pa: i64,
 }
 
 fn parse_case(toks: &[&str]) -> Case {
@@ -97,6 +106,13 @@ fn parse_case(toks: &[&str]) -> Case {
         nlin: us("nlin", 4),
         nlout: us("nlout", 4),
         dirty: us("dirty", 0) != 0,
+        slots: m.get("slots").map(|v| if *v == "-" { vec![] } else { v.split(',').map(|x| x.parse::<usize>().unwrap()).collect() }).unwrap_or_default(),
+        lgap: us("lgap", 0),
+        r0: us("r0", 1),
+        adnum: us("adnum", 1),
+        adsize: us("adsize", 1),
+        rdnum: us("rdnum", 1),
+        pa: m.get("pa").and_then(|v| v.parse::<i64>().ok()).unwrap_or(3),
     }
 }
 
@@ -345,6 +361,203 @@ macro_rules! ks_backend {
                     }
                     let s = fmt_secret(&secret_twin(n, rank, seed32(c.seed, 0)));
                     format!("ok skin={} skout={} keys={} a={} res={}", s, s, keys_txt.join("@"), a_txt, fmt_vec(res.data()))
+                }
+                "pack" | "packer" => {
+                    // ring packing: `slots` = indices of the present inputs (pack: keys of the HashMap; packer: arrival
+                    // positions, the others are `None`); `lgap` = log_gap_out (pack) / log_batch (packer)
+                    let rank = c.rin;
+                    let mut sk = GLWESecret::alloc(Degree(n as u32), Rank(rank as u32));
+                    sk.fill_ternary_prob(0.5, &mut Source::new(seed32(c.seed, 0)));
+                    let key_infos = EncryptionLayout::new_from_default_sigma(GLWEAutomorphismKeyLayout {
+                        n: Degree(n as u32),
+                        base2k: Base2K(c.bkey as u32),
+                        k: TorusPrecision(c.kkey as u32),
+                        rank: Rank(rank as u32),
+                        dnum: Dnum(c.dnum as u32),
+                        dsize: Dsize(c.dsize as u32),
+                    })
+                    .unwrap();
+                    let gal_els: Vec<i64> = module.glwe_pack_galois_elements();
+                    let mut keys: HashMap<i64, GLWEAutomorphismKeyPrepared<DeviceBuf<BE>, BE>> = HashMap::new();
+                    let mut keys_txt = Vec::new();
+                    for g in gal_els.iter() {
+                        let mut atk: GLWEAutomorphismKey<Vec<u8>> = GLWEAutomorphismKey::alloc_from_infos(&key_infos);
+                        module.glwe_automorphism_key_encrypt_sk(&mut atk, *g, &sk, &key_infos, &mut source_xe, &mut source_xa, scratch.borrow());
+                        let mut kp: GLWEAutomorphismKeyPrepared<DeviceBuf<BE>, BE> = module.glwe_automorphism_key_prepared_alloc_from_infos(&atk);
+                        module.glwe_automorphism_key_prepare(&mut kp, &atk, scratch.borrow());
+                        keys_txt.push(format!("{}:{}", g, fmt_gglwe(&atk)));
+                        keys.insert(*g, kp);
+                    }
+                    let mut cts: Vec<GLWE<Vec<u8>>> = Vec::new();
+                    let mut as_txt = Vec::new();
+                    for (k, slot) in c.slots.iter().enumerate() {
+                        let mut a: GLWE<Vec<u8>> = GLWE::alloc_from_infos(&glwe_in_infos);
+                        if c.cls == "enc" {
+                            let enc = EncryptionLayout::new_from_default_sigma(glwe_in_infos).unwrap();
+                            let mut pt: GLWEPlaintext<Vec<u8>> = GLWEPlaintext::alloc_from_infos(&glwe_in_infos);
+                            fill_class(&mut pt.data, c.bin, "rnd", c.seed ^ 0x77 ^ ((k as u64) << 20));
+                            let mut skp: GLWESecretPrepared<DeviceBuf<BE>, BE> = module.glwe_secret_prepared_alloc(Rank(rank as u32));
+                            module.glwe_secret_prepare(&mut skp, &sk);
+                            module.glwe_encrypt_sk(&mut a, &pt, &skp, &enc, &mut source_xe, &mut source_xa, scratch.borrow());
+                        } else {
+                            fill_class(a.data_mut(), c.bin, &c.cls, c.seed ^ ((k as u64 + 1) << 24));
+                        }
+                        as_txt.push(format!("{}:{}", slot, fmt_vec(a.data())));
+                        cts.push(a);
+                    }
+                    let mut res: GLWE<Vec<u8>> = GLWE::alloc_from_infos(&glwe_out_infos);
+                    garbage(res.data_mut());
+                    dirty(&mut scratch);
+                    // the inputs are dumped even when the operation panics (e.g. no input on a slot): `res=panic:<class>`
+                    let r = std::panic::catch_unwind(std::panic::AssertUnwindSafe(|| {
+                        if c.op == "pack" {
+                            let mut map: HashMap<usize, &mut GLWE<Vec<u8>>> = HashMap::new();
+                            for (ct, slot) in cts.iter_mut().zip(c.slots.iter()) {
+                                map.insert(*slot, ct);
+                            }
+                            module.glwe_pack(&mut res, map, c.lgap, &keys, scratch.borrow());
+                        } else {
+                            // the accumulators have the layout of the result
+                            let mut packer = GLWEPacker::alloc(&glwe_out_infos, c.lgap);
+                            let total = n >> c.lgap;
+                            for k in 0..total {
+                                match c.slots.iter().position(|x| *x == k) {
+                                    Some(idx) => glwe_packer_add(&module, &mut packer, Some(&cts[idx]), &keys, scratch.borrow()),
+                                    None => glwe_packer_add(&module, &mut packer, None::<&GLWE<Vec<u8>>>, &keys, scratch.borrow()),
+                                }
+                            }
+                            glwe_packer_flush(&module, &mut packer, &mut res, scratch.borrow());
+                        }
+                    }));
+                    let res_txt = match r {
+                        Ok(()) => fmt_vec(res.data()),
+                        Err(e) => {
+                            let msg = if let Some(s) = e.downcast_ref::<String>() {
+                                s.clone()
+                            } else if let Some(s) = e.downcast_ref::<&str>() {
+                                s.to_string()
+                            } else {
+                                String::new()
+                            };
+                            format!("panic:{}", panic_class(&msg))
+                        }
+                    };
+                    let s = fmt_secret(&secret_twin(n, rank, seed32(c.seed, 0)));
+                    format!("ok skin={} skout={} keys={} a={} res={}", s, s, keys_txt.join("@"), as_txt.join("@"), res_txt)
+                }
+                "gglwe_ks" | "gglwe_ks_assign" => {
+                    // A: switching key sk0 -> sk1 (layout bin/kin/adnum/adsize, ranks r0 -> rin); B: sk1 -> sk2 (the usual key)
+                    let mut sk0 = GLWESecret::alloc(Degree(n as u32), Rank(c.r0 as u32));
+                    sk0.fill_ternary_prob(0.5, &mut Source::new(seed32(c.seed, 4)));
+                    let mut sk1 = GLWESecret::alloc(Degree(n as u32), Rank(c.rin as u32));
+                    sk1.fill_ternary_prob(0.5, &mut Source::new(seed32(c.seed, 0)));
+                    let mut sk2 = GLWESecret::alloc(Degree(n as u32), Rank(c.rout as u32));
+                    sk2.fill_ternary_prob(0.5, &mut Source::new(seed32(c.seed, 1)));
+                    let a_infos = EncryptionLayout::new_from_default_sigma(GLWESwitchingKeyLayout {
+                        n: Degree(n as u32),
+                        base2k: Base2K(c.bin as u32),
+                        k: TorusPrecision(c.kin as u32),
+                        dnum: Dnum(c.adnum as u32),
+                        dsize: Dsize(c.adsize as u32),
+                        rank_in: Rank(c.r0 as u32),
+                        rank_out: Rank(c.rin as u32),
+                    })
+                    .unwrap();
+                    let mut a: GLWESwitchingKey<Vec<u8>> = GLWESwitchingKey::alloc_from_infos(&a_infos);
+                    module.glwe_switching_key_encrypt_sk(&mut a, &sk0, &sk1, &a_infos, &mut source_xe, &mut source_xa, scratch.borrow());
+                    let b_infos = EncryptionLayout::new_from_default_sigma(GLWESwitchingKeyLayout {
+                        n: Degree(n as u32),
+                        base2k: Base2K(c.bkey as u32),
+                        k: TorusPrecision(c.kkey as u32),
+                        dnum: Dnum(c.dnum as u32),
+                        dsize: Dsize(c.dsize as u32),
+                        rank_in: Rank(c.rin as u32),
+                        rank_out: Rank(c.rout as u32),
+                    })
+                    .unwrap();
+                    let mut b: GLWESwitchingKey<Vec<u8>> = GLWESwitchingKey::alloc_from_infos(&b_infos);
+                    module.glwe_switching_key_encrypt_sk(&mut b, &sk1, &sk2, &b_infos, &mut source_xe, &mut source_xa, scratch.borrow());
+                    let mut bp: GLWESwitchingKeyPrepared<DeviceBuf<BE>, BE> = module.glwe_switching_key_prepared_alloc_from_infos(&b);
+                    module.glwe_switching_key_prepare(&mut bp, &b, scratch.borrow());
+                    let a_txt = fmt_gglwe(&a);
+                    let res_txt;
+                    dirty(&mut scratch);
+                    if c.op == "gglwe_ks" {
+                        let mut res: GLWESwitchingKey<Vec<u8>> = GLWESwitchingKey::alloc(
+                            Degree(n as u32),
+                            Base2K(c.bout as u32),
+                            TorusPrecision(c.kout as u32),
+                            Rank(c.r0 as u32),
+                            Rank(c.rout as u32),
+                            Dnum(c.rdnum as u32),
+                            Dsize(c.adsize as u32),
+                        );
+                        module.gglwe_keyswitch(&mut res, &a, &bp, scratch.borrow());
+                        res_txt = fmt_gglwe(&res);
+                    } else {
+                        let mut res = a;
+                        module.gglwe_keyswitch_assign(&mut res, &bp, scratch.borrow());
+                        res_txt = fmt_gglwe(&res);
+                    }
+                    format!(
+                        "ok skin={} skout={} keys=0:{} a={} res={}",
+                        fmt_secret(&secret_twin(n, c.rin, seed32(c.seed, 0))),
+                        fmt_secret(&secret_twin(n, c.rout, seed32(c.seed, 1))),
+                        fmt_gglwe(&b),
+                        a_txt,
+                        res_txt
+                    )
+                }
+                "atk_auto" | "atk_auto_assign" => {
+                    // A: automorphism key of `pa`; key: automorphism key of `p`; result: automorphism key of pa*p
+                    let rank = c.rin;
+                    let mut sk = GLWESecret::alloc(Degree(n as u32), Rank(rank as u32));
+                    sk.fill_ternary_prob(0.5, &mut Source::new(seed32(c.seed, 0)));
+                    let a_infos = EncryptionLayout::new_from_default_sigma(GLWEAutomorphismKeyLayout {
+                        n: Degree(n as u32),
+                        base2k: Base2K(c.bin as u32),
+                        k: TorusPrecision(c.kin as u32),
+                        rank: Rank(rank as u32),
+                        dnum: Dnum(c.adnum as u32),
+                        dsize: Dsize(c.adsize as u32),
+                    })
+                    .unwrap();
+                    let mut a: GLWEAutomorphismKey<Vec<u8>> = GLWEAutomorphismKey::alloc_from_infos(&a_infos);
+                    module.glwe_automorphism_key_encrypt_sk(&mut a, c.pa, &sk, &a_infos, &mut source_xe, &mut source_xa, scratch.borrow());
+                    let key_infos = EncryptionLayout::new_from_default_sigma(GLWEAutomorphismKeyLayout {
+                        n: Degree(n as u32),
+                        base2k: Base2K(c.bkey as u32),
+                        k: TorusPrecision(c.kkey as u32),
+                        rank: Rank(rank as u32),
+                        dnum: Dnum(c.dnum as u32),
+                        dsize: Dsize(c.dsize as u32),
+                    })
+                    .unwrap();
+                    let mut atk: GLWEAutomorphismKey<Vec<u8>> = GLWEAutomorphismKey::alloc_from_infos(&key_infos);
+                    module.glwe_automorphism_key_encrypt_sk(&mut atk, c.p, &sk, &key_infos, &mut source_xe, &mut source_xa, scratch.borrow());
+                    let mut kp: GLWEAutomorphismKeyPrepared<DeviceBuf<BE>, BE> = module.glwe_automorphism_key_prepared_alloc_from_infos(&atk);
+                    module.glwe_automorphism_key_prepare(&mut kp, &atk, scratch.borrow());
+                    let a_txt = format!("{}:{}", a.p(), fmt_gglwe(&a));
+                    let res_txt;
+                    dirty(&mut scratch);
+                    if c.op == "atk_auto" {
+                        let mut res: GLWEAutomorphismKey<Vec<u8>> = GLWEAutomorphismKey::alloc(
+                            Degree(n as u32),
+                            Base2K(c.bout as u32),
+                            TorusPrecision(c.kout as u32),
+                            Rank(rank as u32),
+                            Dnum(c.rdnum as u32),
+                            Dsize(c.adsize as u32),
+                        );
+                        module.glwe_automorphism_key_automorphism(&mut res, &a, &kp, scratch.borrow());
+                        res_txt = format!("{}:{}", res.p(), fmt_gglwe(&res));
+                    } else {
+                        let mut res = a;
+                        module.glwe_automorphism_key_automorphism_assign(&mut res, &kp, scratch.borrow());
+                        res_txt = format!("{}:{}", res.p(), fmt_gglwe(&res));
+                    }
+                    let s = fmt_secret(&secret_twin(n, rank, seed32(c.seed, 0)));
+                    format!("ok skin={} skout={} keys={}:{} a={} res={}", s, s, c.p, fmt_gglwe(&atk), a_txt, res_txt)
                 }
                 "lwe_ks" => {
                     let mut sk_in = LWESecret::alloc(Degree(c.nlin as u32));
